@@ -354,6 +354,137 @@ class Req:
         worst = max(p for (n, ty, w, p, ls) in self.rows() if w >= min(wp))
         return (worst <= cap, "largest chain count of any (hash, w >= %d) row = %d <= MAX_NUM_WINTERNITZ_CHAINS = %d" % (min(wp), worst, cap))
 
+    def siglen_worst(self):
+        L, th, wp = self.limit_tables()
+        n = self.const("constants::MAX_HASH_SIZE")
+        rows = self.rows()
+
+        def pmax(wmin):
+            return max(p for (nn, ty, w, p, ls) in rows if w >= wmin and nn <= n)
+        pk = 4 + 4 + 16 + n
+        worst = 0
+        for l in range(1, L + 1):
+            tot = 4
+            for i in range(l):
+                tot += 4 + (4 + n + n * pmax(wp[i])) + 4 + n * th[i] + (pk if i < l - 1 else 0)
+            worst = max(worst, tot)
+        return worst
+
+    def r_T_LIMIT_SIGCAP(self):
+        cap = self.const("constants::MAX_HSS_SIGNATURE_LENGTH")
+        worst = self.siglen_worst()
+        return (worst <= cap, "longest HSS signature within the per-level limits = %d bytes <= buffer capacity %d" % (worst, cap))
+
+    def siglen_fn(self):
+        """The routine the signing core calls to measure the signature: fn(&[HssParameter]) -> usize."""
+        from . import c04
+        tree, sites = c04.find_core(self.F, self.A.entries_sign())
+        if len(sites) != 1:
+            raise AnchorLost("signing core")
+        corefn = self.F.fns[sites[0][0]]
+        cands = []
+        for b, t in corefn.calls():
+            tps = self.F.call_targets(corefn, t)
+            if tps and tps[0] in self.F.fns and not corefn.blocks[b]["cleanup"]:
+                g = self.F.fns[tps[0]]
+                ins = g.j.get("inputs", [])
+                if g.j.get("output", {}).get("s") == "usize" and len(ins) == 1 and "HssParameter" in ins[0]["s"]:
+                    cands.append((b, t, g))
+        if len(cands) != 1:
+            raise AnchorLost("signature-length routine called by %s: %s" % (corefn.path, [c[2].path for c in cands]))
+        return corefn, sites[0][1], cands[0]
+
+    def r_GF_SIGLEN_U16(self):
+        corefn, cb_block, (lb, lt, g) = self.siglen_fn()
+        dl = lt["dest"]["local"]
+        # the producer of the HSS signature value and the callback must both be reachable only when length <= 65535
+        protected = [cb_block] + [b for b, t in corefn.calls() if self.F.call_targets(corefn, t) and "HssSignature" in self.F.call_targets(corefn, t)[0] and self.F.call_targets(corefn, t)[0].endswith("::sign")]
+        ok = False
+        detail = "no comparison of the measured length found"
+        for b, t in corefn.iter_terms():
+            if t["k"] != "switch" or corefn.blocks[b]["cleanup"]:
+                continue
+            l = core.op_local(t["discr"])
+            ds = corefn.defs_of(l) if l is not None else []
+            if len(ds) != 1 or ds[0][1] == "term" or ds[0][2]["rv"]["k"] != "binop":
+                continue
+            rv = ds[0][2]["rv"]
+            a_is_len = flow.origin(corefn, rv["a"])[:2] == ("call", lb)
+            ex = expr.Expr(self.F, corefn)
+            bound = ex.of_operand(rv["b"])
+            while isinstance(bound, tuple) and bound[0] == "cast":
+                bound = bound[1]
+            if not a_is_len or bound[0] != "const":
+                continue
+            c = bound[1]
+            zero_t = [tg for v, tg in t["targets"] if v == 0]
+            other = t.get("otherwise")
+            if rv["op"] == "Gt" and c <= ia.AV_MAX_LEN and zero_t and other is not None:
+                pass_e, fail_e = zero_t[0], other
+            elif rv["op"] == "Ge" and c <= ia.AV_MAX_LEN + 1 and zero_t and other is not None:
+                pass_e, fail_e = zero_t[0], other
+            elif rv["op"] == "Le" and c <= ia.AV_MAX_LEN and zero_t and other is not None:
+                pass_e, fail_e = other, zero_t[0]
+            elif rv["op"] == "Lt" and c <= ia.AV_MAX_LEN + 1 and zero_t and other is not None:
+                pass_e, fail_e = other, zero_t[0]
+            else:
+                continue
+            doms = all(flow.edge_dominates(corefn, b, pass_e, p) for p in protected)
+            erro = gf.error_only_from(corefn, fail_e, protected)
+            detail = "comparison with %d: dominates callback and signer: %s, failing edge error-only: %s" % (c, doms, erro)
+            ok = ok or (doms and erro and len(protected) >= 2)
+        return (ok, "%s measures the signature with %s and refuses lengths above the vector's 16-bit length before the signer and the callback (%s)" % (corefn.path, g.path, detail))
+
+    def r_T_SIGLEN_FORMULA(self):
+        """The measuring routine adds u32 + per level lms_signature_length(n, p, h) + (all but the last level) lms_public_key_length(n),
+        and those two formulas evaluate to the RFC 8554 lengths on every (hash size, LM-OTS row, height)."""
+        corefn, cb_block, (lb, lt, g) = self.siglen_fn()
+        ex = expr.Expr(self.F, g)
+        calls = {}
+        for b, t in g.calls():
+            tps = self.F.call_targets(g, t)
+            if tps and not g.blocks[b]["cleanup"]:
+                calls.setdefault(tps[0], []).append((b, t))
+        sigf = [p for p in calls if len(self.F.fns[p].j.get("inputs", [])) == 3 and self.F.fns[p].j["output"]["s"] == "usize"]
+        pkf = [p for p in calls if len(self.F.fns[p].j.get("inputs", [])) == 1 and self.F.fns[p].j["output"]["s"] == "usize" and self.F.fns[p].j["inputs"][0]["s"] == "usize"]
+        if len(sigf) != 1 or len(pkf) != 1:
+            return (False, "%s does not call one three-argument and one one-argument length formula: %s" % (g.path, sorted(calls)))
+        # argument provenance of the per-level term
+        sb, st = calls[sigf[0]][0]
+        a_n, a_p, a_h = [ex.of_operand(a) for a in st["args"]]
+        okargs = expr.has_assoc(a_n, "OUTPUT_SIZE") and (expr.has_call(a_p, "get_num_winternitz_chains") or expr.has_field(a_p, "hash_chain_count")) and (expr.has_call(a_h, "get_tree_height") or expr.has_field(a_h, "tree_height"))
+        inloop = g.in_cycle(sb) and g.in_cycle(calls[pkf[0]][0][0])
+        # the public-key term is skipped for the last level only: guarded by a comparison of (index + 1) with the number of levels
+        pb = calls[pkf[0]][0][0]
+        guarded = False
+        for b, t in g.iter_terms():
+            if t["k"] == "switch" and g.dominates(b, pb) and b != pb and g.in_cycle(b):
+                d = core.operand_deps(g, t["discr"])
+                if any(r["op"] in ("Lt", "Le", "Ne", "Gt", "Ge") for r in d["binops"]) and any(core.strip_generics(core.callee_path(ct) or "").endswith("::len") for cb_, ct in d["calls"]):
+                    guarded = True
+        # start value 4
+        init4 = any(s["k"] == "assign" and s["rv"]["k"] == "use" and core.op_const_val(s["rv"]["op"]) == 4 for b, i, s in g.iter_stmts() if not g.in_cycle(b)) or \
+            any((core.callee_path(t) or "").endswith("size_of::<u32>") or ("size_of" in (core.callee_path(t) or "")) for b, t in g.calls() if not g.in_cycle(b))
+        # formulas, on the complete finite domain
+        bad = []
+        hs = self.heights()
+        an = self.an
+        saved_ctx = an.max_ctx
+        an.max_ctx = 10**6  # one context per table point
+        for (n, ty, w, p, ls) in self.rows():
+            for h in hs:
+                r = an.call_local(sigf[0], [(n, n), (p, p), (h, h)]).get(())
+                want = 4 + (4 + n + n * p) + 4 + n * h
+                if r != (want, want):
+                    bad.append(("sig", n, p, h, r, want))
+            r = an.call_local(pkf[0], [(n, n)]).get(())
+            if r != (4 + 4 + 16 + n,) * 2:
+                bad.append(("pk", n, r))
+        an.max_ctx = saved_ctx
+        return (okargs and inloop and guarded and init4 and not bad,
+                "%s = 4 + sum over levels of %s(n, p, h) + (not for the last level) %s(n): arguments %s, in loop %s, last level skipped %s, start 4 %s; formulas equal RFC 8554 on all rows x heights: %s"
+                % (g.path, sigf[0], pkf[0], okargs, inloop, guarded, init4, bad[:2] or True))
+
     def r_T_LIMIT_SIGLEN(self):
         """The HSS signature buffer holds the longest signature of any key within the per-level limits, and that
         length is representable in the vector's u16 length field."""
